@@ -928,7 +928,7 @@ def c13_instances(tier, seed):
                         "c13_oligo_ascii::<%d, %d, %d>(&RANK_K%d, &INV_K%d, COUNT_K%d)" % (k, n, mask, k, k, k), MAPU,
                         {"clause": "oligo vector: binding vs core, bit-equal", "k": k, "chars": n, "shape (bytes per char)": shape(n, mask),
                          "char values": "symbolic: ASCII 0x04..=0x7F / two-byte U+0080..=U+07FF", "norm": "symbolic", "column": "symbolic", "tables": [k]},
-                        core=core, timeout=1800, cost=60.0 * nb, unwindset=[kmer_loop(nb)],
+                        core=core, timeout=1800, cost=60.0 * nb, unwindset=[kmer_loop(nb)], mem=(6 if nb >= 4 else 3),
                         require_opt=(["opt: string with a two-byte character, non-zero entry"] if mask else [])))
 
     def cgr(n, mask, core=True):
@@ -976,7 +976,7 @@ def c13_instances(tier, seed):
     for (w, m, n) in ([(5, 3, 6), (31, 28, 8)] if tier == "quick" else [(5, 3, 8), (31, 28, 12), (8, 5, 10)]):
         out.append(Inst("c13_min_wiring_w%d_m%d_n%d" % (w, m, n), "verif_c13m", "pybindings", "c13_min_wiring::<%d, %d, %d>()" % (w, m, n), n + 2,
                         {"clause": "minimiser iterator wiring: wrapped core iterator walks the object's own copy of the given bytes; w, m passed through; first item equal", "w": w, "m": m, "len": n},
-                        core=True, timeout=900, cost=20.0, unwindset=[("kmer/src/minimiser.rs", BUFF_LOOP, w - m + 3)]))
+                        core=True, timeout=900, cost=20.0, unwindset=[("kmer/src/minimiser.rs", BUFF_LOOP, w - m + 3)], mem=(6 if n > 8 else 3)))
     for (k, n) in ([(2, 5)] if tier == "quick" else [(1, 5), (2, 6), (4, 8), (31, 33)]):
         out.append(Inst("c13_kmer_iter_k%d_n%d" % (k, n), "verif_c13k", "pybindings", "c13_kmer_iter::<%d, %d, %d>()" % (k, n, n - k + 2), n + 2,
                         {"clause": "k-mer iterator: binding vs core after the String is consumed and the object moved", "k": k, "len": n},
@@ -1303,4 +1303,38 @@ PROPS["C18"].roles += [
     ("moves backwards or past the end", "position-not-monotone"),
     ("ends before the end of the sequence", "ends-early"),
     ("field invariant", "invariant-not-inductive"),
+]
+
+
+# C01 inductive step
+def c01_step_instances(tier):
+    out = []
+    pairs = [(1, 8), (2, 8), (4, 10), (16, 20), (31, 34)] if tier == "quick" else [(1, 12), (2, 12), (3, 12), (4, 14), (5, 14), (8, 16), (15, 20), (16, 20), (30, 36), (31, 40)]
+    for (k, n) in pairs:
+        out.append(Inst("c01_step_k%d_n%d" % (k, n), "verif_c01i", "kmer", "c01_step::<%d, %d>()" % (k, n), max(n + 3, k + 3),
+                        {"clause": "ONE INDUCTIVE STEP from any state satisfying the functional invariant: the item returned is the next valid window (also second = rev_comp(first)), invariant re-established",
+                         "k": k, "max_len": n, "len": "symbolic 0..=%d" % n, "state": "symbolic (functional invariant assumed)",
+                         "histories": "any number of next() calls (by induction with c01_base)"}, core=True, timeout=2400, cost=20.0 * n))
+        out.append(Inst("c01_base_k%d_n%d" % (k, n), "verif_c01i", "kmer", "c01_base::<%d, %d>()" % (k, n), max(n + 3, k + 3),
+                        {"clause": "base case: new() satisfies the functional invariant", "k": k, "max_len": n}, core=True, timeout=900, cost=2.0))
+    return out
+
+
+_c01_whole = c01_instances
+
+
+def c01_instances(tier, seed):  # noqa: F811
+    return _c01_whole(tier, seed) + c01_step_instances(tier)
+
+
+PROPS["C01"].modules.append(Module("kmer", "verif_c01i", "harness/kmer/verif_c01i.rs", parent="kmer"))
+PROPS["C01"]._instances = c01_instances
+PROPS["C01"].roles += [
+    ("(from new) the iterator's items differ", "items-differ-from-new"),
+    ("second component is not rev_comp", "second-not-revcomp"),
+    ("state invariant", "invariant-not-inductive"),
+]
+PROPS["C01"].functions += ["(inductive step) one next() from an arbitrary state satisfying the functional invariant; private fields set by an injected child module"]
+PROPS["C01"].assumptions += [
+    "inductive-step instances: the pre-state is ANY state satisfying the functional invariant of harness/kmer/verif_c01i.rs (inv), which the same instances prove inductive (base case c01_base_*, step c01_step_*)",
 ]
